@@ -118,10 +118,54 @@ theorem handler_lists_from_code :
                             "execute-all", "set-record"] ∧
     Gen.C14.migrateHandlers = ["NewBankMigrate", "NewDistrStakingMigrate", "NewGovMigrate"] := by decide
 
-theorem handlerValidate_code (c : Cfg) (s : State) (frm to : Addr) :
-    handlerValidate c s frm to "NewBankMigrate" = none ∧
-    handlerValidate c s frm to "NewDistrStakingMigrate" = stakingValidate c s frm to ∧
-    handlerValidate c s frm to "NewGovMigrate" = (if govRefuses c s frm to then some .gov else none) := by
+/-- **`DistrStakingMigrate.Validate` as regenerated check list = the hand-written reading**: the five checks in source
+order, first refusal wins, give `stakingValidate` for every state and pair -/
+theorem staking_validate_program_as_modelled (s : State) (frm to : Addr) :
+    stakingValidateP Gen.C14.stakingValidateProgram s frm to = stakingValidate cfg s frm to := by
+  have hp : Gen.C14.stakingValidateProgram =
+      ["validator-from", "validator-to", "delegations-to", "unbonding-to", "redelegations-to"] := by decide
+  rw [hp]
+  have c1 : cfg.checkOperator = true := by rw [cfg_from_code]
+  have c2 : cfg.checkTarget = true := by rw [cfg_from_code]
+  have e1 : stakingCheck s frm to "validator-from" = (if s.vals.contains frm then some .validator else none) := by
+    simp only [stakingCheck, beq_self_eq_true, ↓reduceIte]
+  have e2 : stakingCheck s frm to "validator-to" = (if s.vals.contains to then some .validator else none) := by
+    have q1 : ("validator-to" == "validator-from") = false := by decide
+    simp only [stakingCheck, q1, beq_self_eq_true, Bool.false_eq_true, ↓reduceIte]
+  have e3 : stakingCheck s frm to "delegations-to" = (if s.dels.any (fun p => p.1.1 == to) then some .toStaking else none) := by
+    have q2 : ("delegations-to" == "validator-from") = false := by decide
+    have q3 : ("delegations-to" == "validator-to") = false := by decide
+    simp only [stakingCheck, q2, q3, beq_self_eq_true, Bool.false_eq_true, ↓reduceIte]
+  have e4 : stakingCheck s frm to "unbonding-to" = (if s.ubds.any (fun p => p.1.1 == to) then some .toStaking else none) := by
+    have q4 : ("unbonding-to" == "validator-from") = false := by decide
+    have q5 : ("unbonding-to" == "validator-to") = false := by decide
+    have q6 : ("unbonding-to" == "delegations-to") = false := by decide
+    simp only [stakingCheck, q4, q5, q6, beq_self_eq_true, Bool.false_eq_true, ↓reduceIte]
+  have e5 : stakingCheck s frm to "redelegations-to" = (if s.reds.any (fun p => p.1.1 == to) then some .toStaking else none) := by
+    have q7 : ("redelegations-to" == "validator-from") = false := by decide
+    have q8 : ("redelegations-to" == "validator-to") = false := by decide
+    have q9 : ("redelegations-to" == "delegations-to") = false := by decide
+    have q10 : ("redelegations-to" == "unbonding-to") = false := by decide
+    simp only [stakingCheck, q7, q8, q9, q10, beq_self_eq_true, Bool.false_eq_true, ↓reduceIte]
+  unfold stakingValidateP stakingValidate
+  rw [c1, c2]
+  simp only [List.findSome?_cons, List.findSome?_nil, e1, e2, e3, e4, e5, Bool.true_and]
+  by_cases h1 : frm ∈ s.vals
+  · simp [h1]
+  by_cases h2 : to ∈ s.vals
+  · simp [h1, h2]
+  by_cases h3 : s.dels.any (fun p => p.1.1 == to) = true
+  · simp [h1, h2, h3]
+  by_cases h4 : s.ubds.any (fun p => p.1.1 == to) = true
+  · simp [h1, h2, h3, h4]
+  by_cases h5 : s.reds.any (fun p => p.1.1 == to) = true
+  · simp [h1, h2, h3, h4, h5]
+  · simp [h1, h2, h3, h4, h5]
+
+theorem handlerValidate_code (s : State) (frm to : Addr) :
+    handlerValidate cfg s frm to "NewBankMigrate" = none ∧
+    handlerValidate cfg s frm to "NewDistrStakingMigrate" = stakingValidate cfg s frm to ∧
+    handlerValidate cfg s frm to "NewGovMigrate" = (if govRefuses cfg s frm to then some .gov else none) := by
   have t1 : handlerType "NewBankMigrate" = "BankMigrate" := by decide
   have t2 : handlerType "NewDistrStakingMigrate" = "DistrStakingMigrate" := by decide
   have t3 : handlerType "NewGovMigrate" = "GovMigrate" := by decide
@@ -131,6 +175,7 @@ theorem handlerValidate_code (c : Cfg) (s : State) (frm to : Addr) :
   refine ⟨?_, ?_, ?_⟩
   · simp only [handlerValidate, t1, b1, ↓reduceIte]
   · simp only [handlerValidate, t2, b2, Bool.false_eq_true, ↓reduceIte, beq_self_eq_true]
+    exact staking_validate_program_as_modelled s frm to
   · simp only [handlerValidate, t3, b3, Bool.false_eq_true, ↓reduceIte, beq_self_eq_true]
     rfl
 
@@ -183,7 +228,7 @@ theorem handler_program_as_modelled (s : State) (frm to : Addr) (sigOk : Bool) :
   have q15 : ("set-record" == "execute-all") = false := by decide
   simp only [runStmts, handlerStmt, q1, q2, q3, q4, q5, q6, q7, q8, q9, q10, q11, q12, q13, q14, q15,
     beq_self_eq_true, Bool.false_eq_true, ↓reduceIte, List.findSome?, execAll,
-    (handlerValidate_code cfg _ frm to).1, (handlerValidate_code cfg _ frm to).2.1, (handlerValidate_code cfg _ frm to).2.2,
+    (handlerValidate_code _ frm to).1, (handlerValidate_code _ frm to).2.1, (handlerValidate_code _ frm to).2.2,
     (handlerExecute_code cfg _ frm to).1, (handlerExecute_code cfg _ frm to).2.1, (handlerExecute_code cfg _ frm to).2.2]
   by_cases h1 : recGuard cfg.recKeyFrom s frm = true
   · simp [h1]
